@@ -1215,6 +1215,106 @@ def run_c06_stale_views(ctx: common.Ctx):
         ctx.case({'plan': k}, nontrivial=True)
 
 
+GLUED_TEXTS = [
+    '2000-01-01 open Assets:A USD "STRICT";note\n',
+    '2000-01-01 open Assets:A USD"STRICT" ;note\n',
+    '2000-01-01 *\n  Assets:A 1 USD{2 EUR}@3 EUR;note\n',
+    '2000-01-01 *\n  !Assets:Foo 10 USD\n  ! Assets:Baz\n',
+    '2000-01-01 *\n    Assets:Bar  -1 GOOG {1#2 USD}\n',
+    '2000-01-01 *\n    Assets:Bar  -1 GOOG {1 # 2 USD}\n',
+    '2000-01-01 *\n    Assets:Bar  -1 GOOG {{2 USD,2000-01-01}}@@3 USD\n',
+    '2000-01-01 *\n    Assets:Cash 10CAD\n    Assets:Cash 10 CAD@@5 USD\n',
+    '2000-01-01 *"n"#t\n  Assets:A\n',
+    '2000-01-01 balance Assets:A 1~0.1 USD;c\n',
+    '2000-01-01 txn"p""n"^l;c\n  Assets:A\n',
+]
+
+
+def run_c06_glued_removals(ctx: common.Ctx):
+    """Directed: optional children that are written right against a neighbour (legal where the lexer needs no blank).
+    Each present optional child of each model is removed on its own (fresh parse), and then all of them one after the
+    other in the same document; after every accepted removal the printed text must re-parse to what the model says."""
+    from autobean_refactor.models import base
+    from autobean_refactor.models.internal.repeated import Repeated
+
+    def optional_children(root):
+        out = []
+        for p_, m in treewalk.walk(root):
+            if not isinstance(m, base.RawTreeModel) or isinstance(m, Repeated):
+                continue
+            for name in edits.class_props(type(m)):
+                if not name.startswith('raw_') or 'string' in name:
+                    continue        # string0/1/2 are the storage behind payee/narration (the documented API; payee grid covers it)
+                fld = getattr(type(m), '_' + name[4:], None)
+                if type(fld).__name__ not in ('optional_left_field', 'optional_right_field'):
+                    continue
+                try:
+                    if getattr(m, name) is not None:
+                        out.append((p_, name))
+                except Exception:
+                    pass
+        return out
+
+    def resolve(root, path):
+        for p_, m in treewalk.walk(root):
+            if p_ == path:
+                return m
+        return None
+
+    def judge(f, text, hist):
+        out = treewalk.text_of(f)
+        w = {'text': text, 'history': list(hist), 'printed': out}
+        hp = health.problems(f)
+        if hp:
+            ctx.monitor_failure(f'C06:health:{hp[0][0]}', f'after {hist}: {hp[0][1]}', w)
+            return False
+        g = gen_docs.parse_ok(out, True)
+        if g is None:
+            ctx.monitor_failure('C06:printed-text-rejected', f'after {hist} on {text!r} the printed document {out!r} no longer parses', w)
+            return False
+        d = diff(treewalk.content(f), treewalk.content(g))
+        if d:
+            ctx.monitor_failure(classify_c06(d, out, f), f'after {hist} on {text!r} the re-parsed document {out!r} differs from the model at {d}', w)
+            return False
+        return True
+
+    for text in GLUED_TEXTS:
+        f0 = gen_docs.parse_ok(text, True)
+        if f0 is None:
+            ctx.count('glued_texts_rejected_by_parser')
+            continue
+        targets = optional_children(f0)
+        for path, name in targets:
+            f = gen_docs.parse_ok(text, True)
+            m = resolve(f, path)
+            try:
+                setattr(m, name, None)
+            except Exception as e:
+                ctx.count('glued_removals_refused')
+                continue
+            ctx.count('glued_removals')
+            judge(f, text, [f'{path}.{name} = None'])
+            ctx.case({'text': text, 'removed': [name]}, nontrivial=True)
+        for order in (targets, targets[::-1]):
+            f = gen_docs.parse_ok(text, True)
+            hist = []
+            for path, name in order:
+                m = resolve(f, path)
+                if m is None:
+                    continue
+                try:
+                    if getattr(m, name) is None:
+                        continue
+                    setattr(m, name, None)
+                except Exception:
+                    continue
+                hist.append(f'{path}.{name} = None')
+                ctx.count('glued_removals')
+                if not judge(f, text, hist):
+                    break
+            ctx.case({'text': text, 'removed': hist}, nontrivial=bool(hist))
+
+
 def run_c06_whole_field(ctx: common.Ctx):
     """Directed: every view of a repeated field is read first (so that all of them are cached), then the whole
     field is replaced through its raw property by a free-standing wrapper with other contents (a deep copy of
